@@ -66,3 +66,7 @@ def classify_termination_violation(bad, seq, ref, values, N, guard_reassigned):
             return None
         pts += 1
     return K_SHIFT if pts >= 2 else None
+
+
+def classify_refusal(case, refusal_key, message):
+    return None
